@@ -1,8 +1,8 @@
 SPECIFICATION Spec1
 CONSTANTS
-  Nodes1 = {0, 2, 4, 8}
+  Nodes1 = {0, 2, 6}
   Pts <- PtsDef
-  Rads = {1, 2, 3}
+  Rads = {1, 3}
   Facs <- FacsDef
   Mnrs <- MnrsDef
 INVARIANT SumOne
